@@ -689,6 +689,13 @@ def r4(ctx):
     ok = best is not None and U(best).replace(" ", "") == f"screen.get_plate({U(mc[0]).replace(' ', '')})"
     ctx.check("R4", f"{f.site()}::returns-that-plate", ok, "returns screen.get_plate(id with minimum score)",
               f"returns `{U(best) if best is not None else None}`")
+    min_lookup(ctx)
+
+
+def min_lookup(ctx):
+    """the holder's minimum lookup: ids and scores filtered by the same exact-membership mask, reduced by argmin (shared with C16: the
+    plate handed to the policy's caller must be one of the ids the policy allowed)"""
+    N = Norm(strict=False)
     h = ctx.fn("scoring.main.ChunkedScoresHolder.plate_id_with_minimum_score")
     el = h.params[1]
     from engine.astutil import path_returns
